@@ -67,7 +67,7 @@ def shards(tier, seed):
 
 
 def min_required(tier):
-    return {"verdict_valid": 300, "verdict_invalid": 600, "on_demand_digest_path": 200}
+    return {"verdict_valid": 150, "verdict_invalid": 300, "on_demand_digest_path": 200}
 
 
 def run_shard(cases):
